@@ -40,6 +40,8 @@ const FILE_IMPORTS: &[&str] = &[
   "jsr:@s/a@1",
   "jsr:@s/a@2/sub",
   "jsr:@s/b@1/nope",
+  // another spelling of the requirement of "jsr:@s/b@1"
+  "jsr:@s/b@^1",
 ];
 
 const ROOT_IMPORTS: &[&str] = &[
@@ -53,6 +55,10 @@ const ROOT_IMPORTS: &[&str] = &[
   "jsr:@s/b@1/sub",
   "https://jsr.io/@s/a/1.0.0/mod.ts",
   "https://jsr.io/@s/a/2.0.0/sub.ts",
+  // other spellings of "jsr:@s/a@1" and "jsr:@s/a@1/sub": equal requirements,
+  // different specifier texts - each text gets its own redirect
+  "jsr:@s/a@^1",
+  "jsr:/@s/a@1/sub",
   "",
 ];
 
@@ -83,6 +89,7 @@ impl Fixture {
 fn parse_jsr(text: &str) -> Option<(String, String, String)> {
   // jsr:@s/name@req[/sub]
   let rest = text.strip_prefix("jsr:")?;
+  let rest = rest.strip_prefix('/').unwrap_or(rest);
   let mut parts = rest.splitn(3, '/');
   let scope = parts.next()?;
   let name_req = parts.next()?;
@@ -93,7 +100,7 @@ fn parse_jsr(text: &str) -> Option<(String, String, String)> {
 
 fn pick_version(req: &str) -> &'static str {
   // every requirement of the alphabet matches exactly one published version
-  if req.starts_with('1') { "1.0.0" } else { "2.0.0" }
+  if req.trim_start_matches('^').starts_with('1') { "1.0.0" } else { "2.0.0" }
 }
 
 fn body(ch: &Ch) -> Run {
@@ -326,7 +333,12 @@ fn body(ch: &Ch) -> Run {
       case(json!({})),
     );
   }
-  let got_mappings: BTreeSet<String> = g.packages.mappings().iter().map(|(k, v)| format!("{k} -> {v}")).collect();
+  // `^1` and `1` are the same requirement: one mapping / one dependency edge,
+  // under whichever spelling came first
+  let norm = |s: String| s.replace("@^1", "@1");
+  let exp_mappings: BTreeSet<String> = exp_mappings.into_iter().map(norm).collect();
+  let exp_deps: BTreeSet<String> = exp_deps.into_iter().map(norm).collect();
+  let got_mappings: BTreeSet<String> = g.packages.mappings().iter().map(|(k, v)| norm(format!("{k} -> {v}"))).collect();
   if got_mappings != exp_mappings {
     run.violate("package-mappings-differ", format!("mappings {got_mappings:?}, expected {exp_mappings:?}"), case(json!({})));
   }
@@ -335,7 +347,7 @@ fn body(ch: &Ch) -> Run {
   for (nv, deps) in g.packages.packages_with_deps() {
     got_pkgs.insert(nv.to_string());
     for d in deps {
-      got_deps.insert(format!("{nv} -> {d}"));
+      got_deps.insert(norm(format!("{nv} -> {d}")));
     }
   }
   if got_deps != exp_deps {
